@@ -44,10 +44,16 @@ const (
 	// that is a "network error" in the sense of the statement is open, so the
 	// reference accepts both routes and only checks the client-visible part.
 	vc17CatEOF
+	// vc17CatTruncOrNetErr: a truncated UDP reply whose retry over TCP fails
+	// with a network error.  Whether the upstream then "replied" (with the
+	// truncated message) or "failed with a network error" is open, so both
+	// routes are accepted for queries; health checks are not run in this
+	// state.
+	vc17CatTruncOrNetErr
 )
 
 func (c vc17Cat) String() string {
-	return [...]string{"ok", "rcode", "neterr", "plainerr", "nil", "eof"}[c]
+	return [...]string{"ok", "rcode", "neterr", "plainerr", "nil", "eof", "trunc-or-neterr"}[c]
 }
 
 func (c vc17Cat) replies() bool { return c == vc17CatReplyOK || c == vc17CatReplyRcode }
@@ -71,6 +77,14 @@ type vc17Call struct {
 	qname string
 	qtype uint16
 }
+
+// The reference's own limits, deliberately not the constants of the package
+// under test: the smallest DNS message with a question (header, root name,
+// type, class) and the UDP message size the client documents to handle.
+const (
+	vc17MinMsg   = 12 + 1 + 4
+	vc17UDPLimit = 4096
+)
 
 // vc17ProbeSuffix is the suffix of every health-check domain.
 const vc17ProbeSuffix = ".hc.verif.test."
@@ -137,6 +151,9 @@ type vc17Env struct {
 	backoff time.Duration
 	logMu   sync.Mutex
 	log     []vc17Call
+
+	// refreshed is set by the first health-check round with fallbacks.
+	refreshed bool
 
 	// onMainAsked, if set, is told which main a checked query went to.
 	onMainAsked func(idx int)
@@ -320,7 +337,94 @@ func vc17LogString(calls []vc17Call) string {
 func (e *vc17Env) refresh(ctx context.Context, fail vc17Fail) (err error) {
 	e.hist.WriteString("R ")
 
-	return e.refreshRun(fail, func() { _ = e.h.Refresh(ctx) }, true)
+	var rerr error
+	err = e.refreshRun(fail, func() { rerr = e.h.Refresh(ctx) }, true)
+	if err != nil {
+		return err
+	}
+
+	e.checkRefreshErr(fail, rerr)
+
+	return nil
+}
+
+// checkRefreshErr: Handler.Refresh is documented to return an error in case
+// all main upstreams are down (and requests go to the fallbacks).
+func (e *vc17Env) checkRefreshErr(fail vc17Fail, rerr error) {
+	if len(e.fbs) > 0 && e.activeCount() == 0 {
+		e.class("refresh-reports-all-mains-down")
+		if rerr == nil {
+			fail("no main upstream is eligible after the health check but Refresh returned no error\n%s", e.describe())
+		}
+	}
+}
+
+// vc17BurstSuffix ends the names of queries that are sent simultaneously.
+const vc17BurstSuffix = ".burst.example."
+
+// concurrent runs one health-check round WHILE k queries are in flight.  The
+// behaviours of the upstreams do not change meanwhile, so the round itself is
+// judged as usual; each query may have seen the eligible set from before or
+// from after the round.
+func (e *vc17Env) concurrent(ctx context.Context, fail vc17Fail, qtype uint16, ids []uint16) (err error) {
+	fmt.Fprintf(&e.hist, "C%d ", len(ids))
+
+	before := append([]bool(nil), e.active...)
+
+	type result struct {
+		rw  *vc17RW
+		err error
+	}
+
+	results := make([]result, len(ids))
+	names := make([]string, len(ids))
+	var rerr error
+	err = e.refreshRun(fail, func() {
+		var wg sync.WaitGroup
+		start := make(chan struct{})
+		for i := range ids {
+			names[i] = fmt.Sprintf("c%d%s", i, vc17BurstSuffix)
+			wg.Add(1)
+			go func() {
+				defer wg.Done()
+
+				<-start
+				rw, qerr := e.send(ctx, names[i], qtype, ids[i], i%2 == 1)
+				results[i] = result{rw: rw, err: qerr}
+			}()
+		}
+
+		wg.Add(1)
+		go func() {
+			defer wg.Done()
+
+			<-start
+			rerr = e.h.Refresh(ctx)
+		}()
+
+		close(start)
+		wg.Wait()
+	}, true)
+	if err != nil {
+		return err
+	}
+
+	e.checkRefreshErr(fail, rerr)
+	e.class("queries-during-health-check")
+
+	all := append([]vc17Call(nil), e.log...)
+	for i := range ids {
+		var calls []vc17Call
+		for _, c := range all {
+			if c.qname == names[i] {
+				calls = append(calls, c)
+			}
+		}
+
+		e.checkQuery(fail, names[i], qtype, ids[i], calls, results[i].rw, results[i].err, before)
+	}
+
+	return nil
 }
 
 // refreshRun runs one health-check round of the real code through run and the
@@ -336,6 +440,11 @@ func (e *vc17Env) refreshRun(fail vc17Fail, run func(), observable bool) (err er
 
 	probes := make([]int, len(e.mains))
 	for _, c := range e.log {
+		if strings.HasSuffix(c.qname, vc17BurstSuffix) {
+			// A client's query in flight during the round.
+			continue
+		}
+
 		if !c.probe {
 			fail("a health-check round sent a non-probe query %q to %s\n%s", c.qname, c.who, e.describe())
 		}
@@ -362,6 +471,10 @@ func (e *vc17Env) refreshRun(fail vc17Fail, run func(), observable bool) (err er
 
 	for i, m := range e.mains {
 		s := &e.st[i]
+		if m.vc17Cat() == vc17CatTruncOrNetErr {
+			fail("harness error: a health check was run while %s is in an undecided state\n%s", m.vc17Name(), e.describe())
+		}
+
 		up := m.vc17Cat() == vc17CatReplyOK
 
 		inBackoff := false
@@ -446,6 +559,7 @@ func (e *vc17Env) refreshRun(fail vc17Fail, run func(), observable bool) (err er
 		}
 	}
 
+	e.refreshed = true
 	n := e.activeCount()
 	switch {
 	case n == 0:
@@ -494,19 +608,81 @@ func (e *vc17Env) checkActiveState(fail vc17Fail, when string) {
 
 // query sends one query through the real handler and checks where it went and
 // what the client got.
-func (e *vc17Env) query(ctx context.Context, fail vc17Fail, name string, qtype uint16, id uint16) {
+func (e *vc17Env) query(ctx context.Context, fail vc17Fail, name string, qtype uint16, id uint16, edns bool) {
 	fmt.Fprintf(&e.hist, "Q ")
 	e.log = e.log[:0]
+	if !e.refreshed {
+		e.class("query-before-first-health-check")
+	}
 
-	rw, err := e.send(ctx, name, qtype, id)
-	e.checkQuery(fail, name, qtype, id, e.log, rw, err)
+	rw, err := e.send(ctx, name, qtype, id, edns)
+	e.checkQuery(fail, name, qtype, id, e.log, rw, err, nil)
+}
+
+// queryWithDeadCtx sends one query with a context that is already cancelled or
+// past its deadline.  The statement does not say what the client gets then;
+// what stays decided is where the query may go and what may be written: at
+// most one eligible main, at most one fallback, and nothing but a matching
+// reply of an upstream that was asked.
+func (e *vc17Env) queryWithDeadCtx(ctx context.Context, fail vc17Fail, name string, qtype uint16, id uint16) {
+	fmt.Fprintf(&e.hist, "X ")
+	e.log = e.log[:0]
+	e.class("query-with-dead-context")
+
+	rw, err := e.send(ctx, name, qtype, id, false)
+	calls := e.log
+	where := func() string {
+		return fmt.Sprintf("query %q id=%d with a dead context: calls: %s; err=%v; written=%d (%s)\n%s",
+			name, id, vc17LogString(calls), err, len(rw.msgs), vc17TagOf(vc17First(rw.msgs)), e.describe())
+	}
+
+	nMain, nFb := 0, 0
+	asked := map[string]bool{}
+	for _, c := range calls {
+		asked[c.who] = true
+		switch {
+		case c.probe || c.qname != name || c.qtype != qtype:
+			fail("an upstream received something other than the client's question: %+v\n%s", c, where())
+		case c.main:
+			nMain++
+			if !e.active[c.idx] {
+				fail("main %s is out of rotation but received the query\n%s", c.who, where())
+			}
+		default:
+			nFb++
+		}
+	}
+
+	if nMain > 1 || nFb > 1 {
+		fail("more than one attempt on a main or on a fallback\n%s", where())
+	}
+
+	switch {
+	case len(rw.msgs) > 1:
+		fail("more than one response written\n%s", where())
+	case len(rw.msgs) == 1:
+		resp := rw.msgs[0]
+		if err != nil || resp == nil || !asked[vc17TagOf(resp)] {
+			fail("the client got something that is not the reply of an upstream that was asked\n%s", where())
+		}
+
+		if resp.Id != id || len(resp.Question) != 1 || !strings.EqualFold(resp.Question[0].Name, name) || resp.Question[0].Qtype != qtype {
+			fail("reply does not match the query\n%s", where())
+		}
+	case err == nil:
+		fail("nothing was written and no error was returned\n%s", where())
+	}
 }
 
 // send puts one query through the real handler.
-func (e *vc17Env) send(ctx context.Context, name string, qtype uint16, id uint16) (rw *vc17RW, err error) {
+func (e *vc17Env) send(ctx context.Context, name string, qtype uint16, id uint16, edns bool) (rw *vc17RW, err error) {
 	req := &dns.Msg{
 		MsgHdr:   dns.MsgHdr{Id: id, RecursionDesired: true},
 		Question: []dns.Question{{Name: name, Qtype: qtype, Qclass: dns.ClassINET}},
+	}
+	if edns {
+		// What the real callers pass on: the client's OPT record.
+		req.SetEdns0(1232, true)
 	}
 	rw = &vc17RW{}
 	err = e.h.ServeDNS(ctx, rw, req)
@@ -530,12 +706,12 @@ func (e *vc17Env) burst(ctx context.Context, fail vc17Fail, qtype uint16, ids []
 	names := make([]string, len(ids))
 	var wg sync.WaitGroup
 	for i := range ids {
-		names[i] = fmt.Sprintf("b%d.burst.example.", i)
+		names[i] = fmt.Sprintf("b%d%s", i, vc17BurstSuffix)
 		wg.Add(1)
 		go func() {
 			defer wg.Done()
 
-			rw, err := e.send(ctx, names[i], qtype, ids[i])
+			rw, err := e.send(ctx, names[i], qtype, ids[i], i%2 == 1)
 			results[i] = result{rw: rw, err: err}
 		}()
 	}
@@ -551,19 +727,30 @@ func (e *vc17Env) burst(ctx context.Context, fail vc17Fail, qtype uint16, ids []
 			}
 		}
 
-		e.checkQuery(fail, names[i], qtype, ids[i], calls, results[i].rw, results[i].err)
+		e.checkQuery(fail, names[i], qtype, ids[i], calls, results[i].rw, results[i].err, nil)
 	}
 
 	for _, c := range all {
-		if !strings.HasSuffix(c.qname, ".burst.example.") {
+		if !strings.HasSuffix(c.qname, vc17BurstSuffix) {
 			fail("an upstream received %q during a burst of other queries\n%s", c.qname, e.describe())
 		}
 	}
 }
 
 // checkQuery checks where one query went (calls, in order) and what the client
-// got.
-func (e *vc17Env) checkQuery(fail vc17Fail, name string, qtype uint16, id uint16, calls []vc17Call, rw *vc17RW, err error) {
+// got.  alt, if not nil, is a second eligible set the query may have seen
+// instead of the current one (a health check ran at the same time).
+func (e *vc17Env) checkQuery(fail vc17Fail, name string, qtype uint16, id uint16, calls []vc17Call, rw *vc17RW, err error, alt []bool) {
+	altCount := -1
+	if alt != nil {
+		altCount = 0
+		for _, a := range alt {
+			if a {
+				altCount++
+			}
+		}
+	}
+
 	where := func() string {
 		return fmt.Sprintf("query %q id=%d: calls: %s; err=%v; written=%d (%s)\n%s",
 			name, id, vc17LogString(calls), err, len(rw.msgs), vc17TagOf(vc17First(rw.msgs)), e.describe())
@@ -580,8 +767,10 @@ func (e *vc17Env) checkQuery(fail vc17Fail, name string, qtype uint16, id uint16
 	}
 
 	// expectFrom checks the outcome given the upstream whose result decides.
-	expectFrom := func(n vc17Node) {
-		if n.vc17Cat().replies() {
+	var expectOutcome func(n vc17Node, replied bool)
+	expectFrom := func(n vc17Node) { expectOutcome(n, n.vc17Cat().replies()) }
+	expectOutcome = func(n vc17Node, replied bool) {
+		if replied {
 			if err != nil || len(rw.msgs) != 1 {
 				fail("%s replied but the client did not get exactly that reply\n%s", n.vc17Name(), where())
 			}
@@ -616,7 +805,14 @@ func (e *vc17Env) checkQuery(fail vc17Fail, name string, qtype uint16, id uint16
 		}
 	}
 
-	if e.activeCount() == 0 {
+	// emptySeen: the query saw (or, with alt, may have seen) no eligible main.
+	emptySeen := e.activeCount() == 0
+	if alt != nil && e.activeCount() != altCount && (e.activeCount() == 0 || altCount == 0) {
+		// One of the two sets is empty: the route tells which one was seen.
+		emptySeen = len(mainCalls) == 0
+	}
+
+	if emptySeen {
 		// No healthy main: straight to one fallback, once.
 		if len(e.fbs) == 0 {
 			fail("reference has no eligible main and no fallbacks: harness error\n%s", where())
@@ -654,7 +850,7 @@ func (e *vc17Env) checkQuery(fail vc17Fail, name string, qtype uint16, id uint16
 		e.onMainAsked(mi)
 	}
 
-	if !e.active[mi] {
+	if !e.active[mi] && !(alt != nil && alt[mi]) {
 		fail("main %s is out of rotation but received the query\n%s", e.mains[mi].vc17Name(), where())
 	}
 
@@ -693,6 +889,19 @@ func (e *vc17Env) checkQuery(fail vc17Fail, name string, qtype uint16, id uint16
 		}
 
 		expectFrom(m)
+	case vc17CatTruncOrNetErr:
+		switch {
+		case len(fbCalls) > 1:
+			fail("more than one fallback attempt\n%s", where())
+		case len(fbCalls) == 1:
+			e.class("truncated-then-tcp-refused-failed-over")
+			expectFrom(e.fbs[fbCalls[0].idx])
+		case len(e.fbs) == 0 && err != nil:
+			expectOutcome(m, false)
+		default:
+			e.class("truncated-then-tcp-refused-truncated-reply-relayed")
+			expectOutcome(m, true)
+		}
 	case vc17CatNil, vc17CatEOF:
 		// The statement does not say whether an absent reply without an error,
 		// or a closed connection, goes to a fallback; only the client-visible
